@@ -55,6 +55,26 @@ pub mod verif {
         sent == done
     }
 
+    type Gate = Box<dyn FnMut(&str) + Send>;
+    static GATE: Mutex<Option<Gate>> = Mutex::new(None);
+
+    /// Install (or remove) a gate: a callback run at named points between two steps of a
+    /// submission, where a concurrent chain update could take place.
+    pub fn set_gate(gate: Option<Gate>) {
+        *GATE.lock().expect("lock") = gate;
+    }
+
+    pub(crate) fn gate(point: &str) {
+        let taken = GATE.lock().expect("lock").take();
+        if let Some(mut g) = taken {
+            tokio::task::block_in_place(|| g(point));
+            let mut slot = GATE.lock().expect("lock");
+            if slot.is_none() {
+                *slot = Some(g);
+            }
+        }
+    }
+
     /// candidate-uncle sets of the block assemblers started in this process
     pub(crate) static UNCLES: Mutex<Vec<Weak<tokio::sync::Mutex<crate::block_assembler::CandidateUncles>>>> =
         Mutex::new(Vec::new());
